@@ -821,11 +821,15 @@ func (m *Memberlist) sendMsg(a Address, msg []byte) error {
 	msgs = append(msgs, msg)
 	msgs = append(msgs, extra...)
 
-	// Create a compound message
-	compound := makeCompoundMessage(msgs)
-
-	// Send the message
-	return m.rawSendMsgPacket(a, nil, compound.Bytes())
+	// Create one or more compound messages: a single compound message can
+	// only hold 255 parts (its count is one byte), and small user
+	// broadcasts can exceed that within the byte budget.
+	for _, compound := range makeCompoundMessages(msgs) {
+		if err := m.rawSendMsgPacket(a, nil, compound.Bytes()); err != nil {
+			return err
+		}
+	}
+	return nil
 }
 
 // rawSendMsgPacket is used to send message via packet to another host without
